@@ -999,3 +999,53 @@ Lemma memo_executor_notify_refuted :
   map res_deliv (fst (run_history_memo (current_table ++ [aux_row_current]) [] w_demo hs)) = [[]; [(2, C_NotifyClient, 1)]]
   /\ map res_deliv (fst (run_history (current_table ++ [aux_row_current]) w_demo hs)) = [[]; []].
 Proof. split; vm_compute; reflexivity. Qed.
+
+(* ------------------------------------------------------------------------------------------ *)
+(* a single storage fault at any position: fail closed                                        *)
+(* ------------------------------------------------------------------------------------------ *)
+Lemma exec_faulty_cases tbl w k cl c p :
+  exec_faulty false tbl w k cl c p = exec tbl w k cl c \/ exists b, exec_faulty false tbl w k cl c p = mk b w.
+Proof.
+  unfold exec_faulty, exec.
+  destruct (find_row tbl (k_type c) (k_resp c)) as [r|]; [|now left].
+  destruct (r_route r); [now left| |];
+    (destruct (r_auth r && (acting r w k cl =? 0)); [now left|];
+     destruct (Nat.ltb p (guard_reads (r_eff r))); [|now left];
+     right; unfold guard_fail; destruct (r_eff r); eexists; reflexivity).
+Qed.
+
+(* for EVERY fault position the faulted command satisfies everything the unfaulted one does: in particular a command of a
+   non-party (or of nobody) leaves every other owner's mappings, codes and domains untouched and reaches nobody *)
+Lemma fail_closed_gen tbl : sound_table tbl = true ->
+  forall w k cl c p, let a := conn_identity w k in let r := exec_faulty false tbl w k cl c p in
+  (wf_world w -> a = 0 -> inert w r) /\
+  objects_ok a w r /\ reach_ok a w r /\
+  (forall m, In m (w_maps w) -> ~ In m (w_maps (res_world r)) -> partyP a m) /\
+  (forall m, In m (w_maps (res_world r)) -> ~ In m (w_maps w) -> partyP a m) /\
+  (forall i, In i (res_dm r) -> exists m, In m (w_maps (res_world r)) /\ m_id m = i /\ partyP a m).
+Proof.
+  intros Hs w k cl c p. cbn zeta.
+  destruct (exec_faulty_cases tbl w k cl c p) as [->|[b ->]].
+  - split; [intros Hwf Ha; now apply (unauth_refused_gen tbl Hs)|].
+    split; [apply (party_only_objects_gen tbl Hs)|]. split; [apply (reach_only_gen tbl Hs)|].
+    exact (party_only_mappings_gen tbl Hs w k cl c).
+  - split; [intros; apply mk_inert|]. split; [apply objects_ok_mk|]. split; [apply reach_ok_mk|].
+    cbn. repeat split; intros; try contradiction; tauto.
+Qed.
+
+Lemma fail_closed :
+  forall w k cl c p, let a := conn_identity w k in let r := exec_faulty false (current_table ++ [aux_row_current]) w k cl c p in
+  (wf_world w -> a = 0 -> inert w r) /\
+  objects_ok a w r /\ reach_ok a w r /\
+  (forall m, In m (w_maps w) -> ~ In m (w_maps (res_world r)) -> partyP a m) /\
+  (forall m, In m (w_maps (res_world r)) -> ~ In m (w_maps w) -> partyP a m) /\
+  (forall i, In i (res_dm r) -> exists m, In m (w_maps (res_world r)) /\ m_id m = i /\ partyP a m).
+Proof. exact (fail_closed_gen _ current_table_with_notify_sound). Qed.
+
+(* the fall-through variant is refuted: the stranger (client 3) deletes mapping #0 (listen 1, target 2) when the handler's
+   first read fails *)
+Lemma fallthrough_delete_refuted :
+  conn_identity w_demo (KConn 3) = 3
+  /\ w_maps (res_world (exec_faulty true current_table w_demo (KConn 3) 0 (c_demo 76 (Some 0) None) 0)) = tl (w_maps w_demo)
+  /\ exec_faulty false current_table w_demo (KConn 3) 0 (c_demo 76 (Some 0) None) 0 = mk false w_demo.
+Proof. repeat split; vm_compute; reflexivity. Qed.
